@@ -66,8 +66,10 @@ TRUSTED = ['z3 quantifier instantiation']
 def tasks(tier):
     # the step handed to _get_timestep comes from Solver._compute_timestep
     # (C19): its contract is re-proved here
+    # ... and the loop makes progress only if the integrator's adaptive step
+    # is None or strictly positive (C19 explicit / step contracts)
     return ['damp', 'data', 'timestep', 'dump', 'solve', 'setters', 'canary',
-            'dep:C19:solver']
+            'dep:C19:solver', 'dep:C19:explicit', 'dep:C19:step']
 
 
 # ----------------------------------------------------------- numpy vectors
